@@ -118,6 +118,17 @@ def eval_atoms(test, atom_eval: Callable[[ast.expr], Optional[bool]]):
     if any(x is True for x in vals):
       return True
     return False if all(x is False for x in vals) else None
+  if isinstance(test, ast.Constant) and isinstance(test.value, bool):
+    return test.value
+  if isinstance(test, ast.IfExp):
+    # `a if c else b` as a truth value
+    c = eval_atoms(test.test, atom_eval)
+    if c is True:
+      return eval_atoms(test.body, atom_eval)
+    if c is False:
+      return eval_atoms(test.orelse, atom_eval)
+    a, b = eval_atoms(test.body, atom_eval), eval_atoms(test.orelse, atom_eval)
+    return a if a is b and a is not None else None
   return None
 
 
